@@ -311,4 +311,196 @@ theorem generalPos_of_dist {n : ℕ} (P : Params ℝ) (x z : Fin n → ℝ)
     (h : P.eps ≤ Real.sqrt (sqDist (List.ofFn x) (List.ofFn z))) : GeneralPos .l2 P x z :=
   fun _ => not_lt.mpr h
 
+/-! ### transforms on `List.ofFn` -/
+
+theorem applyT_diag_ofFn {n : ℕ} (τ w : Fin n → ℝ) :
+    applyT (.diag (List.ofFn τ)) (List.ofFn w) = List.ofFn fun e => w e * τ e := by
+  simp only [applyT]; exact zipWith_ofFn _ w τ
+
+theorem getD_ofFn {n : ℕ} (f : Fin n → ℝ) (e : Fin n) : (List.ofFn f).getD e 0 = f e := by
+  simp [List.getD_eq_getElem?_getD]
+
+theorem applyT_full_ofFn {n : ℕ} (T : Matrix (Fin n) (Fin n) ℝ) (x : Fin n → ℝ) :
+    applyT (.full (List.ofFn fun i => List.ofFn (T i))) (List.ofFn x) = List.ofFn (Matrix.vecMul x T) := by
+  apply List.ext_getElem?
+  intro i
+  by_cases hi : i < n
+  · have h := applyT_full_entry T x ⟨i, hi⟩
+    simp only at h
+    rw [h, List.getElem?_ofFn]
+    simp [hi]
+  · have hl : (applyT (.full (List.ofFn fun i => List.ofFn (T i))) (List.ofFn x)).length = n := by
+      simp [applyT]
+    rw [List.getElem?_eq_none (by omega), List.getElem?_eq_none (by simp; omega)]
+
+theorem list_eq_ofFn_getD {n : ℕ} (l : List ℝ) (h : l.length = n) : l = List.ofFn fun e : Fin n => l.getD e 0 := by
+  apply List.ext_getElem
+  · simp [h]
+  · intro i h1 h2
+    simp [List.getD_eq_getElem?_getD, List.getElem?_eq_getElem h1]
+
+
+/-! ### the memory-light kernel: works with `M` itself on raw points -/
+
+section light
+variable {n : ℕ}
+
+/-- `Δ M Δᵀ` with `Δ = w − x`. -/
+def quad (M : Matrix (Fin n) (Fin n) ℝ) (x w : Fin n → ℝ) : ℝ :=
+  ∑ e, (w e - x e) * Matrix.vecMul (fun i => w i - x i) M e
+
+/-- The list model's transform acts as the matrix `M` (true for `none` with `M = 1`, a vector with `M = diagonal`, and a
+matrix given by rows). -/
+def ActsAs (T : Transform ℝ) (M : Matrix (Fin n) (Fin n) ℝ) : Prop :=
+  ∀ v : Fin n → ℝ, applyT T (List.ofFn v) = List.ofFn (Matrix.vecMul v M)
+
+theorem actsAs_none : ActsAs (n := n) .none 1 := by
+  intro v; simp [applyT]
+
+theorem actsAs_diag (τ : Fin n → ℝ) : ActsAs (.diag (List.ofFn τ)) (Matrix.diagonal τ) := by
+  intro v
+  rw [applyT_diag_ofFn]
+  congr 1
+  funext e
+  simp [Matrix.vecMul_diagonal]
+
+theorem actsAs_full (M : Matrix (Fin n) (Fin n) ℝ) : ActsAs (.full (List.ofFn fun i => List.ofFn (M i))) M :=
+  fun v => applyT_full_ofFn M v
+
+theorem dot_ofFn (a b : Fin n → ℝ) : dot (List.ofFn a) (List.ofFn b) = ∑ e, a e * b e := by
+  unfold dot
+  rw [zipWith_ofFn, vsum_eq_sum, List.sum_ofFn]
+
+theorem lightSq_ofFn {T : Transform ℝ} {M : Matrix (Fin n) (Fin n) ℝ} (hT : ActsAs T M) (x w : Fin n → ℝ) :
+    lightSq T (List.ofFn x) (List.ofFn w) = if quad M x w < 0 then 0 else quad M x w := by
+  simp only [lightSq, vsub_ofFn]
+  rw [hT (fun e => w e - x e), dot_ofFn]
+  rfl
+
+theorem quad_differentiableAt (M : Matrix (Fin n) (Fin n) ℝ) (x z : Fin n → ℝ) :
+    DifferentiableAt ℝ (quad M x) z := by
+  unfold quad Matrix.vecMul dotProduct
+  fun_prop
+
+theorem quad_partial (M : Matrix (Fin n) (Fin n) ℝ) (hM : M.IsSymm) (x z : Fin n → ℝ) (d : Fin n) :
+    HasDerivAt (fun s => quad M x (Function.update z d s)) (2 * Matrix.vecMul (fun i => z i - x i) M d) (z d) := by
+  have hu : ∀ e : Fin n, HasDerivAt (fun s => Function.update z d s e - x e) ((Pi.single d (1 : ℝ) : Fin n → ℝ) e) (z d) := by
+    intro e
+    have := (hasDerivAt_pi.1 (hasDerivAt_update z d (z d))) e
+    exact this.sub_const (x e)
+  have hv : ∀ e : Fin n, HasDerivAt (fun s => Matrix.vecMul (fun i => Function.update z d s i - x i) M e)
+      (∑ i, (Pi.single d (1 : ℝ) : Fin n → ℝ) i * M i e) (z d) := by
+    intro e
+    simp only [Matrix.vecMul, dotProduct]
+    exact HasDerivAt.fun_sum fun i _ => (hu i).mul_const (M i e)
+  have hq : HasDerivAt (fun s => quad M x (Function.update z d s))
+      (∑ e, ((Pi.single d (1 : ℝ) : Fin n → ℝ) e * Matrix.vecMul (fun i => Function.update z d (z d) i - x i) M e +
+        (Function.update z d (z d) e - x e) * ∑ i, (Pi.single d (1 : ℝ) : Fin n → ℝ) i * M i e)) (z d) := by
+    unfold quad
+    exact HasDerivAt.fun_sum fun e _ => (hu e).mul (hv e)
+  refine hq.congr_deriv ?_
+  simp only [Function.update_eq_self, Pi.single_apply, ite_mul, one_mul, zero_mul, Finset.sum_ite_eq', Finset.mem_univ,
+    if_true, Finset.sum_add_distrib]
+  have hsym : ∑ e, (z e - x e) * M d e = Matrix.vecMul (fun i => z i - x i) M d := by
+    simp only [Matrix.vecMul, dotProduct]
+    exact Finset.sum_congr rfl fun e _ => by rw [← hM.apply d e]
+  rw [hsym]; ring
+
+end light
+
+section light2
+variable {n : ℕ}
+open Filter Topology
+
+theorem kLight_ofFn (P : Params ℝ) {T : Transform ℝ} {M : Matrix (Fin n) (Fin n) ℝ} (hT : ActsAs T M) (x w : Fin n → ℝ) :
+    kLight P T (List.ofFn x) (List.ofFn w) = radial P.L P.q (if quad M x w < 0 then 0 else quad M x w) := by
+  simp only [kLight, lightSq_ofFn hT]
+
+/-- General position for the light kernel: the mask quantity `√(Δ M Δᵀ)` is at least `eps > 0`; then the clamp is
+inactive and the quadratic form is positive. -/
+theorem quad_pos_of_mask (P : Params ℝ) (heps : 0 < P.eps) {T : Transform ℝ} {M : Matrix (Fin n) (Fin n) ℝ}
+    (hT : ActsAs T M) (x z : Fin n → ℝ) (h : P.eps ≤ Real.sqrt (lightSq T (List.ofFn x) (List.ofFn z))) :
+    0 < quad M x z ∧ lightSq T (List.ofFn x) (List.ofFn z) = quad M x z := by
+  have hpos : 0 < lightSq T (List.ofFn x) (List.ofFn z) := Real.sqrt_pos.1 (lt_of_lt_of_le heps h)
+  rw [lightSq_ofFn hT] at hpos ⊢
+  by_cases hq : quad M x z < 0
+  · rw [if_pos hq] at hpos; exact absurd hpos (lt_irrefl 0)
+  · rw [if_neg hq] at hpos ⊢; exact ⟨hpos, rfl⟩
+
+theorem kLight_eventually (P : Params ℝ) {T : Transform ℝ} {M : Matrix (Fin n) (Fin n) ℝ} (hT : ActsAs T M)
+    (x z : Fin n → ℝ) (hpos : 0 < quad M x z) :
+    (fun w : Fin n → ℝ => kLight P T (List.ofFn x) (List.ofFn w)) =ᶠ[𝓝 z] fun w => radial P.L P.q (quad M x w) := by
+  filter_upwards [(quad_differentiableAt M x z).continuousAt.eventually (lt_mem_nhds hpos)] with w hw
+  rw [kLight_ofFn P hT, if_neg (not_lt.mpr hw.le)]
+
+theorem kLight_differentiableAt (P : Params ℝ) {T : Transform ℝ} {M : Matrix (Fin n) (Fin n) ℝ} (hT : ActsAs T M)
+    (x z : Fin n → ℝ) (hpos : 0 < quad M x z) :
+    DifferentiableAt ℝ (fun w : Fin n → ℝ => kLight P T (List.ofFn x) (List.ofFn w)) z := by
+  have h1 : DifferentiableAt ℝ (fun w : Fin n → ℝ => radial P.L P.q (quad M x w)) z :=
+    (radial_hasDerivAt P.L P.q (quad M x z) hpos).differentiableAt.comp z (quad_differentiableAt M x z)
+  exact h1.congr_of_eventuallyEq (kLight_eventually P hT x z hpos)
+
+theorem kLight_partial (P : Params ℝ) {T : Transform ℝ} {M : Matrix (Fin n) (Fin n) ℝ} (hT : ActsAs T M) (hM : M.IsSymm)
+    (x z : Fin n → ℝ) (hpos : 0 < quad M x z) (d : Fin n) :
+    HasDerivAt (fun s => kLight P T (List.ofFn x) (List.ofFn (Function.update z d s)))
+      (l2Factor P (Real.sqrt (quad M x z)) * Matrix.vecMul (fun i => z i - x i) M d) (z d) := by
+  have hq := quad_partial M hM x z d
+  have hz : quad M x (Function.update z d (z d)) = quad M x z := by rw [Function.update_eq_self]
+  have hr := radial_hasDerivAt P.L P.q (quad M x (Function.update z d (z d))) (by rw [hz]; exact hpos)
+  have hcomp := hr.comp (z d) hq
+  have hder : radial P.L P.q (quad M x (Function.update z d (z d))) * -(P.q / P.L ^ P.q) *
+        Real.sqrt (quad M x (Function.update z d (z d))) ^ (P.q - 2) / 2 * (2 * Matrix.vecMul (fun i => z i - x i) M d) =
+      l2Factor P (Real.sqrt (quad M x z)) * Matrix.vecMul (fun i => z i - x i) M d := by
+    rw [hz]
+    simp only [l2Factor, radial, rpow_real, exp_real, sqrt_real]
+    ring
+  have hcomp' := hcomp.congr_deriv hder
+  refine hcomp'.congr_of_eventuallyEq ?_
+  have hev : ∀ᶠ s in 𝓝 (z d), 0 < quad M x (Function.update z d s) := by
+    have hc := hq.continuousAt
+    exact hc.eventually (lt_mem_nhds (by show 0 < quad M x (Function.update z d (z d)); rw [hz]; exact hpos))
+  filter_upwards [hev] with s hs
+  simp only [Function.comp]
+  rw [kLight_ofFn P hT, if_neg (not_lt.mpr hs.le)]
+
+theorem gradLight_ofFn (P : Params ℝ) {T : Transform ℝ} {M : Matrix (Fin n) (Fin n) ℝ} (hT : ActsAs T M)
+    (x z : Fin n → ℝ) (hm : P.eps ≤ Real.sqrt (lightSq T (List.ofFn x) (List.ofFn z))) :
+    gradLight P T (List.ofFn x) (List.ofFn z) =
+      List.ofFn fun d => l2Factor P (Real.sqrt (lightSq T (List.ofFn x) (List.ofFn z))) *
+        Matrix.vecMul (fun i => z i - x i) M d := by
+  simp only [gradLight, sqrt_real, if_neg (not_lt.mpr hm), vsub_ofFn]
+  rw [hT (fun e => z e - x e), List.map_ofFn]
+  rfl
+
+/-- **The Fréchet derivative of the memory-light predictor** (`M` = none, a vector or a symmetric matrix): at a point
+whose mask quantity `√(Δ M Δᵀ)` is at least `eps` for every center, `w ↦ Σ_i c_i k_M(x_i, w)` is differentiable and its
+derivative is the linear functional whose coefficients are the row the gradient code returns. -/
+theorem light_hasFDerivAt (P : Params ℝ) (heps : 0 < P.eps) {T : Transform ℝ} {M : Matrix (Fin n) (Fin n) ℝ}
+    (hT : ActsAs T M) (hM : M.IsSymm) (xs : List (Fin n → ℝ)) (c : List ℝ) (z : Fin n → ℝ)
+    (hgp : ∀ x ∈ xs, P.eps ≤ Real.sqrt (lightSq T (List.ofFn x) (List.ofFn z))) :
+    HasFDerivAt (fun w : Fin n → ℝ => fval (kLight P T) c (xs.map List.ofFn) (List.ofFn w))
+      (∑ e : Fin n, (rowGrad (gradLight P T) c (xs.map List.ofFn) (List.ofFn z)).getD e 0 •
+        (ContinuousLinearMap.proj e : (Fin n → ℝ) →L[ℝ] ℝ)) z := by
+  apply hasFDerivAt_of_partials
+  · apply fval_differentiableAt
+    intro u hu
+    obtain ⟨x, hx, rfl⟩ := List.mem_map.1 hu
+    exact kLight_differentiableAt P hT x z (quad_pos_of_mask P heps hT x z (hgp x hx)).1
+  · intro d
+    have hlen : ∀ u ∈ xs.map List.ofFn, (gradLight P T u (List.ofFn z)).length = (List.ofFn z).length := by
+      intro u hu
+      obtain ⟨x, hx, rfl⟩ := List.mem_map.1 hu
+      rw [gradLight_ofFn P hT x z (hgp x hx)]; simp
+    rw [rowGrad_getD _ _ _ _ _ hlen]
+    refine fval_hasDerivAt (kLight P T) (fun s => List.ofFn (Function.update z d s))
+      (fun u => (gradLight P T u (List.ofFn z)).getD d 0) (z d) c (xs.map List.ofFn) ?_
+    intro u hu
+    obtain ⟨x, hx, rfl⟩ := List.mem_map.1 hu
+    obtain ⟨hpos, hls⟩ := quad_pos_of_mask P heps hT x z (hgp x hx)
+    have hp := kLight_partial P hT hM x z hpos d
+    rw [gradLight_ofFn P hT x z (hgp x hx), getD_ofFn, hls]
+    exact hp
+
+end light2
+
 end Xrfmv.Grad
